@@ -275,6 +275,11 @@ def gen_pipe_cases(ctx, cap):
     budget = {"big": ctx.size(12, 100000)}
 
     def mk(stages, n, kind):
+        if any(FORMS[s_][2] for s_ in stages[:-1]) and cap // 2 < n <= cap:
+            # an inline stage that is not last: how much of the pipe is usable depends on the sizes of the
+            # individual writes (a write that does not fit the current page starts a new one); at most half
+            # the capacity is certain to fit
+            n = cap // 2 - 100
         if has_limit(stages) and cap - 6000 < n < (1 << 20):
             # an early-exit reader: with a payload between one pipe and the stages' own buffers the statuses
             # are a matter of timing in bash too; use a payload that decides them
@@ -445,6 +450,13 @@ def pipe_stream(ctx, work, cap):
         if not impl_done:
             bound = min(bound, bash["t"] * 20 + 2.5)   # a recorded deadlock: do not sit out the full bound
         brush = run_pipe_shell(work, "brush", c, bound)
+        tries = 0
+        while brush["timeout"] and impl_done and tries < 2:
+            # not predicted: make sure it is the pipeline and not the machine (a real hang reproduces)
+            tries += 1
+            time.sleep(1 + tries)
+            bash = run_pipe_shell(work, "bash", c, 120)
+            brush = run_pipe_shell(work, "brush", c, bash["t"] * 20 + 10 * (tries + 1))
         return bash, brush
 
     res = lib.pmap(one, cases, workers=8)
@@ -483,7 +495,11 @@ def pipe_stream(ctx, work, cap):
 
     def onep(j):
         c2, bash = j
-        return run_pipe_shell(work, "brush", c2, bash["t"] * 20 + 10 + 1, pauses=c2["pauses"])
+        r = run_pipe_shell(work, "brush", c2, bash["t"] * 20 + 10 + 1, pauses=c2["pauses"])
+        if r["timeout"]:
+            time.sleep(2)
+            r = run_pipe_shell(work, "brush", c2, bash["t"] * 20 + 20 + 1, pauses=c2["pauses"])
+        return r
 
     pres = lib.pmap(onep, pj, workers=8)
     for (c2, bash), brush in zip(pj, pres):
@@ -580,7 +596,7 @@ def gen_subst_cases(ctx, work, cap):
         else:
             script = "D=%s\n" % lib_sq(t)
         script += 'fp() { printf "%s" "$D"; }\n'
-        script += "X=$(%s; exit %d)\n" % (form, code) if code else "X=$(%s)\n" % form
+        script += "X=$( %s; exit %d )\n" % (form, code) if code else "X=$( %s )\n" % form
         script += 'st=$?; printf "%s" "$X" > "$OUT"; (exit $st)\n'
         cases.append({"text": t, "code": code, "form": fname, "script": script, "req": "C11 strip " + esc(t), "kind": "subst"})
     return cases
@@ -706,7 +722,7 @@ def inproc_streams(ctx, work, cap):
                 direct = "$?/PIPESTATUS differ from bash"
             if (bash_st, bash_ps) != (mst, mps):
                 ctx.oracle_mismatch += 1
-            if (brush_st, brush_ps) != (mst, mps) or api != want_ps:
+            if (brush_st, brush_ps) != (mst, mps):
                 if nv < 10:
                     nv += 1
                     ctx.violation("status collection: brush and the model disagree" + (": " + direct if direct else ""),
